@@ -35,7 +35,7 @@ CLAIMED = {
         note=E1 + " Outside: regex terminals on words outside the stated alphabets, bit-level grammars, the constraint filter of --validate.", ref="DESIGN.md section 3 C05"),
     "C06": dict(
         technique="bounded symbolic execution of the real parser with the number of admitted Earley states counted against a bound derived from the compiled rule table",
-        text="For 15 literal-terminal grammars (nested repetitions, left/right recursion, optional/empty-deriving symbols under *, +, {n,} and in sequences) and ANY str word up to the bound, in forest mode and (for 10 grammars) prefix mode, and for 6 regex-terminal grammars on ALL words over a stated alphabet up to length 3-4 in both modes: the number of admitted Earley states stays below 8*(#dotted rules)*(n+1)^2+64 on every path, i.e. the parse terminates; the twin shows the counter is live.",
+        text="For 15 literal-terminal grammars (nested repetitions, left/right recursion, optional/empty-deriving symbols under *, +, {n,} and in sequences) and ANY str word up to the bound, in forest mode and (for 7 grammars) prefix mode, and for 6 regex-terminal grammars on ALL words over a stated alphabet up to length 3-4 in both modes: the number of admitted Earley states stays below 8*(#dotted rules)*(n+1)^2+64 on every path, i.e. the parse terminates; the twin shows the counter is live.",
         note=E1 + " Outside: grammars that are themselves cyclic through nullable user recursion, regex terminals on words outside the stated alphabets, prefix mode on left-recursive grammars (ends with RecursionError = raises).", ref="DESIGN.md section 3 C06"),
     "C07": dict(
         technique="bounded symbolic execution of real constraint objects (eager and lazy) on symbolic trees; differential against a reference evaluator written from the documentation",
